@@ -204,4 +204,4 @@ def run(ctx):
     import props.c11 as c11
     import statecoh
     import engine
-    engine.run_rules(ctx, [r14_1, dt.r02_4, dt.r02_5, r14_3, c13.r13_4, c13.r13_5, dt.r03_8, ras.r01_5, dt.r03_2, dt.r03_3, dt.r03_9, dt.r06_1, _r19_3, c11.r11_7, ras.r01_6, ras.r01_11, statecoh.r10_6])
+    engine.run_rules(ctx, [r14_1, dt.r02_4, dt.r02_5, r14_3, c13.r13_4, c13.r13_5, dt.r03_8, ras.r01_5, dt.r03_2, dt.r03_3, dt.r03_9, dt.r06_1, _r19_3, c11.r11_7, ras.r01_6, ras.r01_11, statecoh.r10_6, ras.r10_5])
